@@ -7,5 +7,5 @@ MCShapes == AllSessionShapes
 MCScript == IF MCLong THEN <<"LoadRaw", "FreshObj", "CopyFrom">> ELSE <<"LoadRaw", "FreshObj", "CopyFrom">>
 MCProps == {"C06"}
 ASSUME PrintT("SHAPES " \o ToJson(MCShapes))
-INSTANCE Session WITH Shapes <- MCShapes, Script <- MCScript, Deep <- MCDeep, Props <- MCProps, ObjMode <- "all", RawMode <- "corrupt"
+INSTANCE Session WITH Shapes <- MCShapes, Script <- MCScript, Deep <- MCDeep, Props <- MCProps, ObjMode <- "all", RawMode <- "corrupt", EmptyMode <- "plain"
 ====
